@@ -45,8 +45,12 @@ int main(int argc, char** argv) {
       }
       LocalDate ud = LocalDate::forUnixDays((acetime_t) (d + 10957));
       if ((long) ud.toEpochDays() != d) { if (bad < 20) printf("{\"d\":%ld,\"unix\":%ld}\n", d, (long) ud.toEpochDays()); bad++; }
-      LocalDate es = LocalDate::forEpochSeconds((acetime_t) (d >= -24855 && d <= 24855 ? d * 86400 + 77 : 0));
-      if (d >= -24855 && d <= 24855 && (long) es.toEpochDays() != d) { if (bad < 20) printf("{\"d\":%ld,\"viaSeconds\":%ld}\n", d, (long) es.toEpochDays()); bad++; }
+      // (only where the day is reachable through epoch seconds: no other conversion may come between two probes, or a
+      //  dependence of one answer on the call before it would be masked)
+      if (d >= -24855 && d <= 24855) {
+        LocalDate es = LocalDate::forEpochSeconds((acetime_t) (d * 86400 + 77));
+        if ((long) es.toEpochDays() != d) { if (bad < 20) printf("{\"d\":%ld,\"viaSeconds\":%ld}\n", d, (long) es.toEpochDays()); bad++; }
+      }
     };
     for (long d = hi; d >= lo; d--) probe(d);
     for (long d = lo; d <= hi; d++) { probe(d); probe(d - 65536); probe(d); probe(d + 65536); probe(d - 32768); probe(d + 256); }
